@@ -4,6 +4,7 @@ import (
 	"fmt"
 	"runtime"
 	"runtime/debug"
+	"strings"
 	"sync"
 	"sync/atomic"
 	"time"
@@ -24,6 +25,7 @@ type Thread struct {
 	Spin   bool // last yield was a spin-wait iteration
 	Steps  int
 	Pt     string // yield point it is stopped at
+	PtPath string // for a file-system point: the path of the call about to be made
 	Panic  any    // recovered panic value, if fn panicked
 	Stack  string
 	// Tag is free for harness use.
@@ -404,10 +406,17 @@ func jitter() {
 type Phase struct {
 	Thread int `json:"t"`
 	Until  int `json:"until"`
+	// AtPt, if set, replaces Until: the thread runs until it is about to make
+	// the call named AtPt on a path containing PathSub (first occurrence
+	// since the phase began), and then Plus further steps.
+	AtPt    string `json:"at,omitempty"`
+	PathSub string `json:"path,omitempty"`
+	Plus    int    `json:"plus,omitempty"`
 }
 
 func ChoosePhases(phases []Phase, then func(*Sched, []*Thread) *Thread) func(*Sched, []*Thread) *Thread {
 	idx := 0
+	anchor := make([]int, len(phases)) // step count at which phase i met its AtPt (0 = not yet)
 	return func(s *Sched, r []*Thread) *Thread {
 		for idx < len(phases) {
 			ph := phases[idx]
@@ -416,7 +425,15 @@ func ChoosePhases(phases []Phase, then func(*Sched, []*Thread) *Thread) func(*Sc
 				continue
 			}
 			t := s.Threads[ph.Thread]
-			if !t.Runnable() || (ph.Until >= 0 && t.Steps >= ph.Until) {
+			if ph.AtPt != "" {
+				if anchor[idx] == 0 && t.Pt == ph.AtPt && strings.Contains(t.PtPath, ph.PathSub) {
+					anchor[idx] = t.Steps + 1
+				}
+				if !t.Runnable() || (anchor[idx] != 0 && t.Steps+1 >= anchor[idx]+ph.Plus) {
+					idx++
+					continue
+				}
+			} else if !t.Runnable() || (ph.Until >= 0 && t.Steps >= ph.Until) {
 				idx++
 				continue
 			}
